@@ -26,7 +26,7 @@ RULE = ('seeded generator over the 9 methods of the test interface c14svc (strin
         'exception, nested struct/list<struct>/list<list<i32>>, void, void with a declared exception, '
         'bool/i16/i32/i64/list<i32>/binary arguments, a method whose throws clause has a field-id gap, a void method whose '
         'only exception has id 2, a oneway method); argument and return values from the thrift_spec: text ASCII/Latin-1/BMP/'
-        'astral/empty/large (to 200 kB, python-only above 4 kB), lone surrogates, integer edges of every width and out-of-range '
+        'astral/empty/large (to 200 kB, python-only above 3 kB), lone surrogates, integer edges of every width and out-of-range '
         'values, empty/long/nested lists, absent fields, positional and keyword arguments; handler scripts: return value, '
         'return None (missing result), each declared exception, TApplicationException of every type, unexpected exception; '
         'reply manglings: unversioned header, bad version, truncated payload, negative/zero size, foreign reply name, unknown '
@@ -40,7 +40,7 @@ TRUSTED = ['Thrift library 0.24 (TBinaryProtocol pure Python, fastbinary, TAppli
            'fake gevent socket in harness/props/c14.py (recv/recv_into/send/sendall with scripted sizes)']
 ASSUMPTIONS = ['struct.pack/unpack semantics of CPython as transcribed in Model/Bytes.v',
                'wire types outside bool/i16/i32/i64/string/binary/list/struct (double, byte, map, set, uuid) are not modelled',
-               'frames above 4 kB are checked by the monitor against the library only, not evaluated inside Coq',
+               'frames above 3 kB are checked by the monitor against the library only, not evaluated inside Coq',
                'a recv on an exhausted script returns 0 bytes (peer closed); a real socket would block until the deadline (C08/C12)']
 
 MANIFEST = {
@@ -61,7 +61,7 @@ MANIFEST = {
 
 _S = {}
 T_BOOL, T_I16, T_I32, T_I64, T_STRING, T_STRUCT, T_LIST = 2, 6, 8, 10, 11, 12, 15
-MAX_COQ_BYTES = 4000
+MAX_COQ_BYTES = 3000
 
 
 # ---------------------------------------------------------------------------------------------
@@ -317,7 +317,7 @@ def gen_rpc(r, nchunk, method=None, behaviour=None):
       handler = {'do': 'other'}
   case = {'kind': 'rpc', 'method': method, 'args': args, 'kwargs': kwargs, 'handler': handler,
           'sock': r.choice(['varz', 'varz', 'scales']), 'send_cap': r.choice([None, None, 1, 7, 100]),
-          'extra': r.choice(['none', 'none', 'frame', 'junk']), 'mangle': None,
+          'extra': r.choice(['none', 'none', 'frame', 'junk']), 'mangle': None, 'mseed': r.randrange(1 << 30),
           'ops': gen_chunkings(r, nchunk)}
   return case
 
@@ -699,7 +699,7 @@ def _one_run(case, ch, rng_seed):
       stream = b''                   # oneway: the server sends nothing
       flen = 0
     else:
-      stream = mangle(case.get('mangle'), payload, random.Random(rng_seed))
+      stream = mangle(case.get('mangle'), payload, random.Random(case.get('mseed', 0)))
       flen = len(stream)
       if case.get('extra') == 'frame':
         stream += struct.pack('!i', 3) + b'abc'
@@ -1034,17 +1034,20 @@ def to_coq(case, obs):
     return None            # lone surrogate: no UTF-8 bytes to hand to the model (monitor requires an error)
   sent = bytes(run0['sent'])
   runs = []
+  stream = run0['stream']
   if sent:
     for r in obs['runs']:
+      if r['stream'] != stream:
+        continue             # cannot happen (the peer is deterministic); such a run is left to the monitor
       c = r['caller']
       left = r['left']
       if c.get('inner_cls') == 'EOFError' and c.get('faulted'):
         left = 0
-      runs.append('{| r_varz := %s; r_stream := %s; r_sizes := %s; r_caller := %s; r_left := %s |}' %
-                  (C.blit(case['sock'] == 'varz'), C.bytes_lit(r['stream']), C.zlist(r['sizes']),
-                   _caller_term(method, c, True), C.zlit(left)))
-  return 'CRpc c14svc %s %s %s %s %s' % (C.bytes_lit(method.encode()), C.blit(_result_cls(method) is not None), args,
-                                        C.opt(C.bytes_lit(sent)) if sent else 'None', C.lst(runs))
+      runs.append('{| r_sizes := %s; r_caller := %s; r_left := %s |}' %
+                  (C.zlist(r['sizes']), _caller_term(method, c, True), C.zlit(left)))
+  return 'CRpc c14svc %s %s %s %s %s %s %s' % (C.bytes_lit(method.encode()), C.blit(_result_cls(method) is not None), args,
+                                              C.opt(C.bytes_lit(sent)) if sent else 'None',
+                                              C.blit(case['sock'] == 'varz'), C.bytes_lit(stream), C.lst(runs))
 
 
 def nontrivial(case, obs):
